@@ -99,3 +99,10 @@ func VerifHttpConns(g *GoatOverHttp) []string {
 	}
 	return out
 }
+
+// VerifClientReadErrTry is VerifClientReadErr without waiting for the
+// multiplexer's mutex; ok is false if it could not be taken.
+func VerifClientReadErrTry(cc *ClientConn) (err error, ok bool) { return cc.mp.VerifTryReadErr() }
+
+// VerifClientRegistrySizeTry is VerifClientRegistrySize without waiting.
+func VerifClientRegistrySizeTry(cc *ClientConn) (n int, ok bool) { return cc.mp.VerifTryRegistrySize() }
